@@ -13,7 +13,7 @@ SMT = "MIR (nightly -Zunpretty=mir) of the real functions translated to SMT-LIB 
 LOCK = "lock-acquisition event paths of every engine entry point extracted from the crate's MIR; z3 searches all two-thread interleavings under writer-preferring RwLock semantics for a state where no thread can move"
 
 CLAIMS = {
-    "C01": dict(tech=KANI, ref="§6 C01", text="Component-level bounded model checking: the per-key window arithmetic is proved as one inductive step from an arbitrary state (covers histories of any length); table roll-back glue (keys only persisted / only cached / created or deleted later), block-table roll-back, height derivation and the engine-level acceptance guard are each decided for all symbolic inputs inside stated bounds. Right level because the property quantifies over histories: an inductive step over a symbolic pre-state reaches what no finite set of test histories does. NOT decided (measured out of reach, DESIGN.md 11.2): that every table of the database is rolled back, the database-level depth guard, the recorded maximum; revm execution and the RPC layer.",
+    "C01": dict(tech=KANI + "; " + SMT, ref="§6 C01", text="Component-level bounded model checking: the per-key window arithmetic is proved as one inductive step from an arbitrary state (covers histories of any length); table roll-back glue (keys only persisted / only cached / created or deleted later), block-table roll-back, height derivation and the engine-level acceptance guard are each decided for all symbolic inputs inside stated bounds. Right level because the property quantifies over histories: an inductive step over a symbolic pre-state reaches what no finite set of test histories does. The database-level depth guard (refused iff more than 10 below the recorded maximum, before any table call) and the update rule of the recorded maximum (only ever raised) are decided from the MIR paths of reorg / set_block_hash for all 64-bit values (SMT); that every versioned table is passed to reorg is a MIR cross-reference (X1). NOT decided: the whole-database roll-back as one solver run (DESIGN.md 11.2); revm execution and the RPC layer.",
                 note="Trusted: Kani/CBMC, the container/RocksDB/lock models, the paper composition argument of DESIGN.md §4; EVM execution, JSON-RPC answers and contract code are outside."),
     "C02": dict(tech=KANI, ref="§6 C02", text="The iteration order of every hash map is a symbolic variable: range scans and full scans are shown to return the same, key-sorted list for every order, so list-valued answers built on them cannot differ between replicas. Narrow claim (scan order + pinned derivation constants); revm, hashes and golden digests are outside.",
                 note="Trusted: HashMap model's order nondeterminism (forwards/backwards/rotated insertion sequence = all permutations of <=3 keys)."),
@@ -21,7 +21,7 @@ CLAIMS = {
                 note="Trusted: RocksDB model (reopen = new object over the same rows); process restart with real RocksDB is outside."),
     "C04": dict(tech=KANI, ref="§6 C04", text="The crash point is a symbolic write budget in the RocksDB model: after a table commit cut at ANY write the disk never holds a new latest value with an old history, a cut block-table commit leaves a prefix, and the cut states roll back correctly (a stale latest row is rewritten, rows above a hole are deleted). NOT decided: heights-before-state order over the whole database (DESIGN.md 11.2).",
                 note="Trusted: single RocksDB writes are atomic and durable when they return Ok (model); torn writes and revm-internal crashes are outside."),
-    "C05": dict(tech=KANI, ref="§6 C05", text="The waiting-tx guard of commit / reorg / mine, the engine-level reorg acceptance and the exactly-one-encoding rule are compared with reference predicates written from the property text for all symbolic arguments and engine states, and refusals are shown to happen before any lock write or storage write. NOT decided (did not finish): validate_next_tx and the block-exists guard.",
+    "C05": dict(tech=KANI + "; " + SMT, ref="§6 C05", text="The waiting-tx guard of commit / reorg / mine, the engine-level reorg acceptance and the exactly-one-encoding rule are compared with reference predicates written from the property text for all symbolic arguments and engine states, and refusals are shown to happen before any lock write or storage write. validate_next_tx is compared with its reference predicate (tx_idx = count, same timestamp and hash, block number and hash unknown) with alloc::fmt::format stubbed; the database-level depth guard of reorg is decided from the MIR paths of the function (SMT). NOT decided: that a call rejected after EVM execution started leaves nothing behind; finalise with a wrong count.",
                 note="Errors raised after partial EVM execution and RPC parameter decoding are outside."),
     "C09": dict(tech=KANI, ref="§6 C09", text="Absence of panics for all inputs up to stated sizes in the request-reachable pure code CBMC can carry: payload decoder after base64 (empty payload, raw and unknown prefixes; zstd and nada branches in the thorough tier), lock-script builder, generated block hash; mine refused mid-block.",
                 note="revm on arbitrary bytecode, Bitcoin-RPC precompiles, jsonrpsee typing are outside; base64/zstd/nada are stubbed or trusted as listed in the evidence."),
@@ -35,7 +35,7 @@ CLAIMS = {
                 note="base64, zstd and nada themselves are stubbed/trusted; payloads near 1 MiB are outside."),
     "C16": dict(tech=SMT, ref="§6 C16", text="The allowance arithmetic of the real compiled functions: get_gas_limit(n) = min(n*12000, 2^64-1), inverse never increases the allowance, monotone - for all 64-bit n.",
                 note="Receipt gas <= allowance, out-of-gas behaviour and estimate sufficiency need revm and are outside."),
-    "C18": dict(tech=KANI, ref="§6 C18", text="Exactness (both range boundaries, cache over disk incl. uncommitted deletions) and key order of the (block,index) scan eth_getLogs is built on, for every hash-map order, committed or not; key order = chain order (MIR->SMT). NOT decided: per-log filter semantics and the range guard (DESIGN.md 11.2).",
+    "C18": dict(tech=KANI + "; " + SMT, ref="§6 C18", text="Exactness (both range boundaries, cache over disk incl. uncommitted deletions) and key order of the (block,index) scan eth_getLogs is built on, for every hash-map order, committed or not; key order = chain order (MIR->SMT). The range guard and the defaults of get_logs (at most 6 blocks; wider and reversed ranges refused; exactly the key range of the requested blocks is scanned) are decided from the MIR paths of the function prefix for all 64-bit from/to/latest (SMT). NOT decided: per-log address/topic filter semantics (DESIGN.md 11.2).",
                 note="JSON filter parsing and more than the stated number of receipts/logs/topics are outside."),
 }
 
